@@ -53,14 +53,154 @@ def _tuples(conn, sql):
         cur.close()
 
 
+import time as _real_time_mod
+import random as _real_random_mod
+_REAL_TIME = _real_time_mod.time
+_REAL_CHOICE = _real_random_mod.choice
+_REAL_RANDRANGE = _real_random_mod.randrange
+_REAL_CONNECT = sqlite3.connect
+
+
 class VClock(object):
-    """Replacement for the `time` module inside the server modules."""
+    """The virtual clock of one driver."""
 
     def __init__(self):
         self.now = 0.0
 
     def time(self):
         return self.now
+
+
+# The stand-ins below are installed once per process and delegate to the driver that was created
+# last (one history runs at a time); with no driver they behave like the real thing.
+_ACTIVE = [None]
+_UNDO = []
+
+
+def _vtime():
+    drv = _ACTIVE[0]
+    return drv.clock.now if drv is not None else _REAL_TIME()
+
+
+class _TimeShim(object):
+    """stands in for the `time` module inside the code under test"""
+    time = staticmethod(_vtime)
+
+    def __getattr__(self, name):
+        return getattr(_real_time_mod, name)
+
+
+def _vchoice(seq):
+    """allocate's choice is the one the replayed behaviour made, when there is one"""
+    drv = _ACTIVE[0]
+    seq = list(seq)
+    if drv is None:
+        return _REAL_CHOICE(seq)
+    if drv._step is not None:
+        cs = sorted(str(x) for x in seq)
+        drv._step["cands"] = [len(cs)] + cs[:12]
+    want = drv._force_pick
+    if want is not None and want in seq:
+        return want
+    return _REAL_CHOICE(seq)
+
+
+def _vrandrange(*args):
+    """random.randrange with the extremes of the range over-represented (every value of the range is
+    a legitimate outcome, the extremes are the ones sampling never produces); a replayed behaviour's
+    pick is honoured when it lies in the range"""
+    drv = _ACTIVE[0]
+    if drv is None or len(args) > 2:
+        return _REAL_RANDRANGE(*args)
+    lo, hi = (0, args[0]) if len(args) == 1 else args
+    want = drv._force_pick
+    if want is not None and str(want).isdigit() and lo <= int(want) < hi:
+        return int(want)
+    n = drv._rr_calls = getattr(drv, "_rr_calls", 0) + 1
+    r = _real_random_mod.random()
+    if hi - lo >= 2 and (n == 1 or (n > 2 and r < 0.25)):
+        return lo
+    if hi - lo >= 2 and (n == 2 or (n > 2 and r < 0.5)):
+        return hi - 1
+    return _REAL_RANDRANGE(*args)
+
+
+class _RandomShim(object):
+    """stands in for the `random` module inside the code under test"""
+    choice = staticmethod(_vchoice)
+    randrange = staticmethod(_vrandrange)
+    randint = staticmethod(lambda a, b: _vrandrange(a, b + 1))
+
+    def __getattr__(self, name):
+        return getattr(_real_random_mod, name)
+
+
+_REC_CLASSES = {}
+
+
+def _rec_class(base):
+    """the connection class the code asked for, with the recording hooks on top"""
+    if base not in _REC_CLASSES:
+        class RecConn(base):
+            def commit(self_):
+                base.commit(self_)
+                drv = _ACTIVE[0]
+                if drv is not None:
+                    drv._on_commit()
+
+            def execute(self_, *a, **kw):
+                drv = _ACTIVE[0]
+                if drv is not None and drv._fault_armed and getattr(self_, "_mbh_role", None) == "channel":
+                    drv._fault_armed = False
+                    raise sqlite3.OperationalError("database is locked")
+                return base.execute(self_, *a, **kw)
+        _REC_CLASSES[base] = RecConn
+    return _REC_CLASSES[base]
+
+
+def _vconnect(path, *a, **kw):
+    drv = _ACTIVE[0]
+    if drv is None:
+        return _REAL_CONNECT(path, *a, **kw)
+    kw["factory"] = _rec_class(kw.get("factory") or sqlite3.Connection)
+    c = _REAL_CONNECT(path, *a, **kw)
+    drv._conns_made = [x for x in drv._conns_made if getattr(x, "_mbh_role", None)][-4:] + [c]
+    # durable changes are looked for at the start of every SQL statement as well: a commit
+    # need not go through Connection.commit() (`with db:`, executescript, autocommit mode)
+    c.set_trace_callback(lambda stmt, _d=drv: _d._on_commit())
+    if os.path.abspath(str(path)) == os.path.abspath(drv.chan_path):
+        c._mbh_role = "channel"
+    elif drv.usage_path and os.path.abspath(str(path)) == os.path.abspath(drv.usage_path):
+        c._mbh_role = "usage"
+    return c
+
+
+_SQLITE_SHIM = types.ModuleType("sqlite3_mbh")
+_SQLITE_SHIM.__dict__.update({k: v for k, v in sqlite3.__dict__.items() if not k.startswith("__")})
+_SQLITE_SHIM.connect = _vconnect
+_TIME_SHIM = _TimeShim()
+_RANDOM_SHIM = _RandomShim()
+
+
+def _code_modules():
+    """every loaded module of the package under test (not its tests)"""
+    return [m for n, m in list(sys.modules.items())
+            if m is not None and (n == "wormhole_mailbox_server" or n.startswith("wormhole_mailbox_server."))
+            and ".test" not in n]
+
+
+def _rebind(mapping, undo):
+    """Replace, in the globals of every module of the code under test, each name bound to one of the
+    objects in `mapping` (by identity) — however the module imported it (`import time`,
+    `import time as t`, `from time import time as now`, a constant taken over into another module).
+    `undo` collects (module, name, old value)."""
+    for mod in _code_modules():
+        for name, val in list(vars(mod).items()):
+            for old, new in mapping:
+                if val is old:
+                    undo.append((mod, name, val))
+                    setattr(mod, name, new)
+                    break
 
 
 class Tokens(object):
@@ -221,58 +361,17 @@ class Driver(object):
 
     # -- shims ------------------------------------------------------------
     def _install_shims(self):
-        m = self.m
-        m["ws"].time = self.clock
-        m["tap"].time = self.clock
-        drv = self
-
-        class RecConn(sqlite3.Connection):
-            def commit(self_):
-                sqlite3.Connection.commit(self_)
-                drv._on_commit()
-
-            def execute(self_, *a, **kw):
-                if drv._fault_armed and getattr(self_, "_mbh_role", None) == "channel":
-                    drv._fault_armed = False
-                    raise sqlite3.OperationalError("database is locked")
-                return sqlite3.Connection.execute(self_, *a, **kw)
-
-        shim = types.ModuleType("sqlite3_mbh")
-        shim.__dict__.update({k: v for k, v in sqlite3.__dict__.items() if not k.startswith("__")})
-
-        def connect(path, *a, **kw):
-            kw.setdefault("factory", RecConn)
-            c = sqlite3.connect(path, *a, **kw)
-            drv._conns_made = [x for x in drv._conns_made if getattr(x, "_mbh_role", None)][-4:] + [c]
-            # durable changes are looked for at the start of every SQL statement as well: a commit
-            # need not go through Connection.commit() (`with db:`, executescript, autocommit mode)
-            c.set_trace_callback(lambda stmt: drv._on_commit())
-            if os.path.abspath(str(path)) == os.path.abspath(drv.chan_path):
-                c._mbh_role = "channel"
-            elif drv.usage_path and os.path.abspath(str(path)) == os.path.abspath(drv.usage_path):
-                c._mbh_role = "usage"
-            return c
-        shim.connect = connect
-        m["database"].sqlite3 = shim
-
-        import random as _random
-
-        class PickRandom(object):
-            """stands in for the `random` module inside server.py: allocate's
-            choice is the one the replayed behaviour made, when there is one"""
-            def choice(self_, seq):
-                if drv._step is not None:
-                    cs = sorted(str(x) for x in seq)
-                    drv._step["cands"] = [len(cs)] + cs[:12]
-                want = drv._force_pick
-                if want is not None and want in seq:
-                    return want
-                return _random.choice(seq)
-
-            def __getattr__(self_, name):
-                return getattr(_random, name)
+        """However the modules of the code under test got hold of the clock, the random source and
+        sqlite3 (`import time`, `import time as t`, `from time import time as now`, ...), they now get
+        the harness's stand-ins; imports made inside functions see the real modules, so the real
+        `time.time` is replaced as well while a driver exists."""
         self._force_pick = None
-        m["server"].random = PickRandom()
+        _ACTIVE[0] = self
+        _rebind([(_real_time_mod, _TIME_SHIM), (_REAL_TIME, _vtime),
+                 (_real_random_mod, _RANDOM_SHIM), (_REAL_CHOICE, _vchoice), (_REAL_RANDRANGE, _vrandrange),
+                 (sqlite3, _SQLITE_SHIM), (_REAL_CONNECT, _vconnect)], _UNDO)
+        _real_time_mod.time = _vtime
+        _real_random_mod.choice = _vchoice
 
     def close(self):
         try:
@@ -281,12 +380,13 @@ class Driver(object):
             for c in self._ro.values():
                 c.close()
             self._ro = {}
-            self.m["database"].sqlite3 = sqlite3
-            import random as _r
-            self.m["server"].random = _r
-            import time as _t
-            self.m["ws"].time = _t
-            self.m["tap"].time = _t
+            if _ACTIVE[0] is self:
+                _ACTIVE[0] = None
+                for (mod, name, val) in reversed(_UNDO):
+                    setattr(mod, name, val)
+                del _UNDO[:]
+                _real_time_mod.time = _REAL_TIME
+                _real_random_mod.choice = _REAL_CHOICE
             if self.own_dir:
                 shutil.rmtree(self.dir, ignore_errors=True)
 
@@ -528,17 +628,27 @@ class Driver(object):
         self.tclock = Clock()
         self.tclock.rightNow = float(self.clock.now)
         site = None
-        for svc in parent:
+
+        def walk(svc):
+            yield svc
+            try:
+                kids = list(svc)
+            except TypeError:
+                kids = []
+            for k in kids:
+                for x in walk(k):
+                    yield x
+        self.server = None
+        for svc in walk(parent):
             if isinstance(svc, TimerService):
                 svc.clock = self.tclock
                 self.period_secs = svc.step
             elif isinstance(svc, self.m["server"].Server):
                 self.server = svc
-            elif hasattr(svc, "factory"):
+            elif hasattr(svc, "factory") and site is None:
                 site = svc.factory
         self.parent = parent
-        # the websocket factory hangs off the site's /v1 resource
-        self.factory = site.resource.children[b"v1"]._factory
+        self.factory = self._find_ws_factory(site)
         drv = self
         orig_prune = self.server.prune_all_apps
 
@@ -556,6 +666,21 @@ class Driver(object):
         parent.startService()      # fires the first expire() immediately
         self.up = True
         self.next_sweep = self.now_ticks() + self.to_ticks(self.period_secs)
+
+    def _find_ws_factory(self, site):
+        """the WebSocket factory of the running service: it hangs off the site's /v1 resource; if the
+        assembly was restructured, it is whichever autobahn server factory was built for this server"""
+        try:
+            return site.resource.children[b"v1"]._factory
+        except Exception:
+            pass
+        import gc
+        from autobahn.twisted.websocket import WebSocketServerFactory
+        cands = [o for o in gc.get_objects() if isinstance(o, WebSocketServerFactory)]
+        mine = [o for o in cands if any(v is self.server for v in vars(o).values())]
+        if not mine:
+            raise RuntimeError("no websocket factory found for the running service")
+        return mine[-1]
 
     def _abandon(self):
         """Drop every Python object of the running server (process death)."""
@@ -655,6 +780,9 @@ class Driver(object):
                 continue
             if f == "cv":
                 c = T.conc("cv", m[f])
+                if not isinstance(c, str):
+                    d["client_version"] = c      # "#[1]", "#{}": not a pair
+                    continue
                 d["client_version"] = c.split("|", 1) if "|" in c else [c, c]
                 T.rev["cv"].setdefault("|".join(d["client_version"]), m[f])
             elif f == "appid":
